@@ -97,6 +97,33 @@ class C10:
                 g = Group("g%d" % k, "resp-value", {"code": code, "reason": reason.hex(), "headers": [[a.hex(), b.hex()] for a, b in hs], "body": body.hex(), "hl": hl})
                 g.add("grt", "RESPGRT %s %d %s %s %s" % (opt(hl), code, hx(reason), hdrs_field(hs), hx(body)))
             groups.append(g)
+        # values whose generated request line / total length sits exactly at a limit of the parsing Request: "lines fit the
+        # line limit" includes the line of exactly the limit, under the documented defaults and under limits set by hand
+        # (seventh round: request line limit compared with the CRLF included, off by two at 999 / 1000 bytes)
+        j = 0
+        for line_len in (990, 997, 998, 999, 1000):
+            for method in (b"GET", b"M", "G\u00c9T".encode()):
+                target = b"/" + b"a" * (line_len - len(method) - 11)
+                for hs, body in (([], b""), ([(b"Host", b"h"), (b"Content-Length", b"3")], b"abc")):
+                    for spelling in ("d,d,d", "D,D,D", "1000,1000,10000000", "%d,-,-" % line_len, "%d,-,-" % (line_len + 1), "-,-,-"):
+                        g = Group("gl%d" % j, "req-value", {"method": method.hex(), "target": target.hex(), "headers": [[a.hex(), b.hex()] for a, b in hs], "body": body.hex(), "hl": None})
+                        g.add("grt", "REQGRT %s %s %s %s %s" % (spelling, hx(method), hx(target), hdrs_field(hs), hx(body)))
+                        groups.append(g)
+                        j += 1
+        for _ in range(n // 20):
+            method = rng.pick(gen.GOOD_METHODS[:10])
+            target = b"/" + gen.rand_bytes(rng, rng.randint(0, 30), b"abcxyz019-._~")
+            hs = wf_headers(rng)
+            body = gen.rand_bytes(rng, rng.below(30))
+            hs.append((b"Content-Length", str(len(body)).encode()))
+            L = len(method) + 1 + len(target) + 9
+            total = L + 2 + sum(len(a) + 2 + len(b) + 2 for a, b in hs) + 2 + len(body)
+            longest = max(len(a) + 2 + len(b) + 2 for a, b in hs)
+            spelling = "%s,%s,%s" % (rng.pick(["-", str(L), str(L + 1), "d"]), rng.pick(["-", str(longest), str(longest + 1)]), rng.pick(["-", str(total), str(total + 1), "d"]))
+            g = Group("gl%d" % j, "req-value", {"method": method.hex(), "target": target.hex(), "headers": [[a.hex(), b.hex()] for a, b in hs], "body": body.hex(), "hl": None})
+            g.add("grt", "REQGRT %s %s %s %s %s" % (spelling, hx(method), hx(target), hdrs_field(hs), hx(body)))
+            groups.append(g)
+            j += 1
         # the URI model itself (dependency), on the target grammar and its mutations
         for k in range(n):
             t = gen.rand_target(rng) if rng.chance(3, 4) else rng.pick(gen.BAD_TARGETS + gen.D8_TARGETS)
